@@ -310,6 +310,8 @@ Proof.
   destruct (v_payload var) as [pt|]; [|reflexivity]. rewrite is_some_option_map. exact Hp.
 Qed.
 
+Definition top_nullable (t : gtype) : bool := match t with GNonNull _ => false | _ => true end.
+
 (* equality of field definitions, for "the object declares the interface's field as the interface does" *)
 Definition gtype_eqb_gen := fix go (a b : gtype) : bool :=
   match a, b with
@@ -425,11 +427,13 @@ Section Checker.
                match decorate "ID" (quals_sdl ty) with Some r => rtype_eqb r (f_ty fd) | None => false end &&
                (if String.eqb h "deserialize_id" then match ty with GNonNull (GNamed _) => true | _ => false end
                 else if String.eqb h "deserialize_option_id" then match ty with GNamed _ => true | _ => false end
-                else String.eqb h "deserialize_id_list")
+                else String.eqb h "deserialize_id_list") &&
+               (* `default` (an absent key gives None) only where the schema allows null *)
+               (negb (f_default fd) || top_nullable ty)
             then Some 4 else None
         | None, Some fdf =>
             let ty := fd_type fdf in
-            if negb (wf_gtype ty) then None else
+            if negb (wf_gtype ty && negb (f_default fd)) then None else
             match leaf_need rec (gname ty) (rleaf (f_ty fd)) sub with
             | Some F0 =>
                 match decorate (rleaf (f_ty fd)) (quals_sdl ty) with
@@ -491,6 +495,7 @@ Section Checker.
 
   Definition variants_need (rec : string -> string -> list sel -> option nat) (t : string) (sels : list sel)
              (variants : list rvariant) : option (list nat) :=
+    if negb (forallb (fun v => mem_str (variant_wire v) (possible s t) || v_other v) variants) then None else
     map_opt (fun rt =>
       match find (fun v => String.eqb (variant_wire v) rt) variants with
       | Some var =>
@@ -677,7 +682,8 @@ Section Soundness.
           rewrite (decorate_leaf _ "ID" Hwf) in Hdec. apply rtype_eqb_eq in Hdec. rewrite <- Hdec.
           pose proof (proj1 (id_container_both henv Hh (S F) _ Hwf) v Hid_ok) as Hs.
           destruct (id_container_deser _ _ v); [discriminate|discriminate Hs]. }
-    destruct (wf_gtype (fd_type fdf)) eqn:Ewf; [|discriminate]. cbn [negb] in Hpn.
+    destruct (wf_gtype (fd_type fdf) && negb (f_default fd)) eqn:Ewf0; [|discriminate]. cbn [negb] in Hpn.
+    apply andb_true_iff in Ewf0. destruct Ewf0 as [Ewf _].
     destruct (leaf_need s env rec (gname (fd_type fdf)) (rleaf (f_ty fd)) sub) as [F0|] eqn:El; [|discriminate].
     destruct (decorate (rleaf (f_ty fd)) (quals_sdl (fd_type fdf))) as [r|] eqn:Edec; [|discriminate].
     destruct (rtype_eqb r (f_ty fd)) eqn:Er; [|discriminate]. apply rtype_eqb_eq in Er. subst r.
@@ -995,6 +1001,7 @@ Section Soundness.
                 | _, _ => False
                 end).
     { intros variants vn Hv. unfold variants_need in Hv.
+      destruct (forallb (fun v => mem_str (variant_wire v) (possible s t) || v_other v) variants); [|discriminate]. cbn [negb] in Hv.
       destruct (map_opt_in _ _ _ _ Hv Hrt) as [nd [Hnd1 Hnd2]].
       destruct (find (fun v => String.eqb (variant_wire v) rt) variants) as [var|]; [|discriminate].
       exists var, nd. split; [reflexivity|]. split; [exact Hnd2|].
@@ -1145,9 +1152,10 @@ Definition certify (s : aschema) (henv env : list ritem) (doc : list qdef) (op :
   | Some (k, _, sels) =>
       match root_type s k with
       | Some root =>
-          if mem_str root (possible s root)
-          then sel_need s henv env (S (fold_right (fun y a => sel_size y + a) 0 sels)) "ResponseData" root sels
-          else None
+          match find_kind_sdl s root with
+          | Some KObject => sel_need s henv env (S (fold_right (fun y a => sel_size y + a) 0 sels)) "ResponseData" root sels
+          | _ => None
+          end
       | None => None
       end
   | None => None
@@ -1161,7 +1169,8 @@ Proof.
   unfold certify, conforms. intros H F data HF Hc.
   destruct (find_op doc op) as [[[k vars] sels]|]; [|discriminate].
   destruct (root_type s k) as [root|]; [|discriminate].
-  destruct (mem_str root (possible s root)) eqn:Er; [|discriminate]. apply mem_str_In in Er.
+  destruct (find_kind_sdl s root) as [[| | | | |]|] eqn:Ek; try discriminate.
+  assert (Er : In root (possible s root)) by (unfold possible; rewrite Ek; left; reflexivity).
   destruct data as [| | | | | |m]; try discriminate.
   exact (sel_accepts s (frag_defs doc) henv env _ "ResponseData" root sels B H F HF _ m root Er Hc).
 Qed.
